@@ -11,13 +11,13 @@ MANIFEST = dict(
     level="model_checking",
     text="TLC checks the canonical-RLP theorems (decode-encode identity, at most one byte string per value, integer canonicity, "
          "scanner agreement) on all byte strings of length <=4 (thorough <=5) over the 14 boundary bytes and on ~4000 nested values; "
-         "the real rlp decoder (interface{}, []byte, uint64/32/8, *big.Int, bool, Split, CountValues) and encoder are run on exactly "
+         "the real rlp decoder (interface{}, []byte, string, [1]/[2]byte, uint64/32/8, *big.Int, bool, a struct, Split, CountValues) and encoder are run on exactly "
          "those inputs plus seeded long-form strings and mutations, and TLC validates every real result against the spec (a panic is a "
          "violation). TLC enumerates ~4400 (type, shape) pairs for header, block, transaction (nil gas payer / recipient, box payloads, "
          "JSON form), all 19 registered change-log types built by their real constructors, account data, deputy node, asset, equity, "
          "13 wire messages and the Lemo address text; each is instantiated with seeded values on the real types, encoded, decoded as "
          "the node decodes it, re-encoded, and TLC requires equal value, payload types, hash/merkle roots, recovered signers and - for "
-         "hashed or signed types - equal bytes.",
+         "hashed or signed types - equal bytes; damaged copies of every encoding are offered to the typed decoders (no panic).",
     note="Projections of values are rendered by the harness (nil and empty byte strings alike; OldVal of a change log is not encoded by design); "
          "every equality is judged in TLA+. Error kinds of the decoder are not distinguished. Inputs shorter than 2^24 bytes. "
          "The registry of change-log types is read off the real code and must equal the spec's catalogue.",
@@ -60,7 +60,7 @@ def run(ctx):
     cfg = "MCRlp_quick.cfg" if ctx.quick() else "MCRlp_thorough.cfg"
     dot = ctx.path("rlp.dot")
     r1 = ctx.tlc_exhaustive("MCRlp", cfg, timeout=900, dump=dot)
-    seeded = 12000 if ctx.quick() else 80000
+    seeded = 12000 if ctx.quick() else 200000
     res = _drive_all(ctx, "rlp", ["-graph", dot, "-seeded", seeded], "rlp")
     counts = {}
     for _, s in res:
@@ -95,8 +95,9 @@ def run(ctx):
         if n["inv"] != "InvRoundTrip":
             _broken("negative control: wire model with %s on should violate InvRoundTrip, got %s" % (k, n["inv"]))
     ctx.extra["negative_controls"] = neg
-    variants = 3 if ctx.quick() else 12
-    res2 = _drive_all(ctx, "codecshapes", ["-graph", dot2, "-variants", variants], "shapes")
+    variants = 3 if ctx.quick() else 30
+    muts = 8 if ctx.quick() else 20
+    res2 = _drive_all(ctx, "codecshapes", ["-graph", dot2, "-variants", variants, "-mutations", muts], "shapes")
     rows2 = sum(s["rows"] for _, s in res2)
     by_type = {}
     for _, s in res2:
@@ -123,6 +124,7 @@ def run(ctx):
     ctx.extra["rlp_rows"] = counts
     ctx.extra["shape_rows_by_type"] = by_type
     ctx.extra["shape_variants"] = variants
+    ctx.extra["damaged_encodings_offered_to_typed_decoders"] = rows2 * muts
     ctx.extra["bounds"] = dict(rlp=open(ctx.specdir + "/" + cfg).read(), seeded_strings=seeded,
                                shapes=r2["distinct"], variants_per_shape=variants)
     ctx.assumptions += [
